@@ -796,7 +796,10 @@ class MarkdownNormalizer(Renderer):
 
         # First render the alert header (Alert has alert_type attribute)
         alert_type: str = element.alert_type  # pyright: ignore
-        alert_header = f"> [!{alert_type}]\n"
+        # The header line carries the enclosing container prefix (list marker, outer quote) like any
+        # other first line; the alert's content continues under the continuation prefix.
+        alert_header = f"{self._prefix}> [!{alert_type}]\n"
+        self._prefix = self._second_prefix
 
         with self.container("> ", "> "):
             result = self.render_children(element).rstrip("\n")
